@@ -423,6 +423,9 @@ class Consumer(object):
         # Are we waiting for a request to come back?
         if self._request_d:
             self._request_d.cancel()
+            # It may have fired already with its reply parked until the
+            # current block is processed: cancel() is then a no-op
+            self._request_d = None
         # Are we working our way through a block of messages?
         if self._msg_block_d:
             # Need to add a cancel handler...
